@@ -375,7 +375,7 @@ def environment_case(ck, rng, stats):
     src = sb.maildir('src')
     helper = common.rec_helper()
     hout = os.path.join(sb.root, 'helper-out'); os.makedirs(hout)
-    tz = rng.choice([None, '', '', 'UTC', 'Europe/Stockholm', 'EST5EDT', ':UTC'])
+    tz = rng.choice([None, '', '', 'UTC', 'Europe/Stockholm', 'EST5EDT', ':UTC', 'X' * 254, 'X' * 255, 'X' * 256, 'X' * 300])
     extra = {'VERIF_HELPER_OUT': hout, 'VERIF_HELPER_EXIT': '0', 'X_EMPTY': '', 'MDSORT_X': 'a b=c'}
     n = rng.randrange(1, 5)
     dates = [rng.choice([b'Sat, 02 Mar 2019 10:00:00 GMT', b'Sat, 02 Mar 2019 10:00:00 EST', b'Sat, 02 Mar 2019 10:00:00 +0100 (CET)',
@@ -405,11 +405,24 @@ def environment_case(ck, rng, stats):
     rep = {'config': open(conf, 'rb').read().decode(errors='replace'), 'messages': [d.decode() if d else None for d in dates], 'exit': r.returncode,
            'environment': env, 'stderr': r.stderr[-300:].decode(errors='replace')}
     bad = None
-    if len(calls) != n * (2 if how == 'both' else 1):
+    # the model's account of TZ (ExecDefs.child_tz): the zone texts that are not numeric go through tzabbr
+    zones = [d.split()[-1] for d in dates if d and cond != b'all' and not d.split()[-1].startswith((b'+', b'-', b'('))]
+    mres = common.run_lines(common.model_exe(), ['childtz %s %s' % ('U' if tz is None else 'S' + common.hexs(tz.encode()) if tz else 'S',
+                                                                    ','.join(common.hexs(z) for z in zones) or '-')])[0][0]
+    if mres == 'REFUSED':
+        # TZ does not fit the snapshot buffer: mdsort must not start (no command runs)
+        if calls or r.returncode == 0:
+            bad = 'TZ of %d characters does not fit the buffer (model: mdsort refuses to start) but exit %d and %d command(s) ran' % (len(tz), r.returncode, len(calls))
+        calls = []
+    elif len(calls) != n * (2 if how == 'both' else 1):
         bad = 'the command ran %d times for %d messages' % (len(calls), n)
     for i, c in enumerate(calls):
         if bad:
             break
+        got_tz = [e[3:] for e in (c['environ'] or []) if e.startswith(b'TZ=')]
+        m_tz = None if mres == 'U' else common.unhexs(mres[1:]) if len(mres) > 1 else b''
+        if c['environ'] is not None and (got_tz[0] if got_tz else None) != m_tz and sorted(c['environ']) == want:
+            ck.violation('correspondence broken: TZ of a child: model %r, implementation %r' % (m_tz, got_tz), dict(rep, obligation='correspondence ExecDefs.child_tz'), found_input=False)
         if c['environ'] is None:
             bad = 'the helper could not record its environment'
         elif sorted(c['environ']) != want:
